@@ -556,30 +556,12 @@ def judge_unit(u, r, m):
 
 
 # ---------------------------------------------------------------- workers
-def run_workers(cases, tag, script="c15", per=None, timeout=1200, jit=True, trace=False):
-    if not cases:
-        return [], None
-    nw = min(cm.NCPU, max(1, len(cases) // (per or 8)))
-    chunks = [cases[i::nw] for i in range(nw)]
-    pls = [dict(cases=c, trace=trace) for c in chunks]
-    res = cm.run_impl_parallel(PID, script, pls, timeout=timeout, jit=jit, tag=tag)
-    out = [None] * len(cases)
-    covs = []
-    for w, (rr, ch) in enumerate(zip(res, chunks)):
-        idxs = list(range(w, len(cases), nw))
-        if rr["status"] == "ok":
-            for i, x in zip(idxs, rr["result"]["results"]):
-                out[i] = x
-            if rr["result"].get("coverage"):
-                covs.append(rr["result"]["coverage"])
-        else:
-            singles = cm.run_impl_parallel(PID, script, [dict(cases=[c]) for c in ch], timeout=300, jit=jit, tag=tag + "_iso")
-            for i, s in zip(idxs, singles):
-                if s["status"] == "ok":
-                    out[i] = s["result"]["results"][0]
-                else:
-                    out[i] = dict(exc=f"PROCESS-{s['status'].upper()}", exc_msg=f"rc={s.get('rc')} {s.get('log', '')[-300:]}")
-    return out, covs
+def run_workers(cases, tag, script="c15", per=None, timeout=1800, jit=True, trace=False):
+    res, covs = hg.run_cases(cm, PID, script, cases, tag, per=per or 8, timeout=timeout, jit=jit, trace=trace, notes=WORKER_NOTES)
+    return res, (covs or None)
+
+
+WORKER_NOTES = []
 
 
 def merge_cov(covs):
@@ -666,7 +648,8 @@ def run(tier, seed, replay=None):
         "order_points (arctan2/argsort) and barycentric_transforms (pinv) are not modelled: the permutation and the matrices X are taken from the implementation; their effect is judged by poly_cert",
         "harness/compat.py import shim; numpy/numba/OpenBLAS/CPython",
     ]
-    R.check_proofs([f for f in PROOF_FILES if (cm.COQ / f).exists()])
+    R.check_proofs([f for f in PROOF_FILES if (cm.COQ / f).exists()],
+                   build_targets=["theories/Props/C15.vo", "theories/Model/HydroRun.vo", "theories/Checker/Poly.vo"])
 
     if replay:
         c = json.loads(open(replay).read())["case"]
@@ -704,7 +687,7 @@ def run(tier, seed, replay=None):
         fp = ex.submit(run_workers, pairs, "pair", "c15", 40)
         fb = ex.submit(run_workers, bodies, "body", "c15", 2)
         fu = ex.submit(run_workers, units, "unit", "c15", 200)
-        fc = ex.submit(run_workers, cov_cases, "cov", "c15", max(4, len(cov_cases) // 12), 1500, False, True)
+        fc = ex.submit(run_workers, cov_cases, "cov", "c15", max(4, len(cov_cases) // 12), 2400, False, True)
         pres, _ = fp.result()
         bres, _ = fb.result()
         ures, _ = fu.result()
@@ -834,11 +817,11 @@ def run(tier, seed, replay=None):
             u_exprs.append(ex)
             u_idx.append(i)
     pool = ThreadPoolExecutor(2)
-    fut_model = pool.submit(cm.coq_eval_lines, PID, MODEL_HEADER, m_exprs + u_exprs, "model",
+    fut_model = pool.submit(hg.coq_eval, cm, PID, MODEL_HEADER, m_exprs + u_exprs, "model",
                             max(10, (len(m_exprs) + len(u_exprs)) // (2 * cm.NCPU) + 1), 1500)
     verdicts = []
     try:
-        verdicts = cm.coq_eval_lines(PID, CERT_HEADER, cert_exprs, tag="cert", per_file=max(8, len(cert_exprs) // (2 * cm.NCPU) + 1), timeout=1500)
+        verdicts = hg.coq_eval(cm, PID, CERT_HEADER, cert_exprs, "cert", max(8, len(cert_exprs) // (2 * cm.NCPU) + 1), 1500)
     except RuntimeError as e:
         R.proof_broken.append(f"checker evaluation failed: {str(e)[:400]}")
     T["coq_certificates"] = round(time.time() - t0, 1); t0 = time.time()
@@ -1008,6 +991,8 @@ def run(tier, seed, replay=None):
                 distinct.add(cm.canon_hash(u))
 
     T["coq_model"] = round(time.time() - t0, 1)
+    if WORKER_NOTES:
+        R.notes.append(dict(worker_retries=list(WORKER_NOTES)))
     R.cov["distinct_nontrivial"] = len(distinct)
     R.cov["certificates_evaluated"] = len([1 for k in cert_idx if k[0] in ("pair", "body")])
     R.cov["certificates_rejected"] = rejected
@@ -1233,7 +1218,7 @@ def targeted_search(R, tier):
             route_polygon_failure(R, hits, "contact polygon depends on the order of the tetrahedra (search)", dict(c, o12=a, o21=b),
                                   c["t1"], c["t2"], a["plane"], "intersect_tetrahedron_pair")
     try:
-        vs = cm.coq_eval_lines(PID, CERT_HEADER, exprs, tag="search", per_file=max(8, len(exprs) // (3 * cm.NCPU) + 1), timeout=1500)
+        vs = hg.coq_eval(cm, PID, CERT_HEADER, exprs, "search", max(8, len(exprs) // (3 * cm.NCPU) + 1), 1500)
         for (i, o), v in zip(idx, vs):
             bits = hg.parse_coq_value(v)
             if not all(bits):
